@@ -71,11 +71,15 @@ def generate(seed, tier, idx=0):
             cands.append(ref.end)
             cands = [t for t in cands if ref.clock <= t <= ref.end]
             t = rng.choice(cands)
-            if rng.random() < 0.08:
-                t = rng.choice([ref.clock - 1, ref.clock - 0.5, ref.end + 2, ref.end + 0.5])
+            if rng.random() < 0.10:
+                t = rng.choice([ref.clock - 1, ref.clock - 0.5, ref.end + 2, ref.end + 0.5,
+                                ref.end + 1, ref.end + 5])
             if prog["clock"] == "int":
                 t = int(t)
-            if name == "run_up_to" and t >= ref.end:
+            if name == "run_up_to" and t == ref.end:
+                # (exactly at the end "excluding" and "not resumable" jointly
+                # drop the events at the end: documented relaxation; a bound
+                # beyond the end must still run everything up to the end)
                 name = "run_up_to_incl"
             cmd = [name, t]
         exp = devscommon.ref_apply(ref, cmd)
